@@ -337,7 +337,7 @@ def runPath (inp obs : List String) : Verdict :=
       let p := parse s
       let img := match validateImagePath s with | .ok _ => "k" | .error _ => "e"
       let model :=
-        [pform p,
+        ["P", pform p,
          "p=" ++ (match p.parent? with | none => "none" | some q => pform q),
          "f=" ++ (match p.fileName? with | none => "none" | some f => "s" ++ hexOfStr f),
          "abs=" ++ (if p.abs then "1" else "0"),
@@ -359,7 +359,7 @@ def runPair (inp obs : List String) : Verdict :=
     match unhexStr h1, unhexStr h2 with
     | some s, some t =>
       let p := parse s; let q := parse t
-      let model := ["sw=" ++ (if p.startsWith q then "1" else "0"),
+      let model := ["Q", "sw=" ++ (if p.startsWith q then "1" else "0"),
                     "eq=" ++ (if p == q then "1" else "0"),
                     "join=" ++ pform (p.join q)]
       { agree := model == obs, tags := ["pair"] ++ (if s.length ≥ 1 && t.length ≥ 1 then ["nt"] else []),
